@@ -8,6 +8,8 @@ import (
 	"fmt"
 	"io/ioutil"
 	"os"
+	"runtime"
+	"runtime/pprof"
 	"sort"
 	"strconv"
 	"strings"
@@ -124,7 +126,54 @@ func Mine(k int64) bool {
 // OverBudget reports whether the shard's wall-clock budget is used up. Hitting it is never a
 // violation: the caller stops, calls Cap and the run is reported exhaustive:false.
 func OverBudget() bool {
-	return budget > 0 && time.Since(start) > budget
+	if budget > 0 && time.Since(start) > budget {
+		return true
+	}
+	return overMemory()
+}
+
+var (
+	memSoftKB   int64 = -1
+	memChecked  time.Time
+	memOver     bool
+	memOverOnce sync.Once
+)
+
+// overMemory is the second half of the budget: a shard whose resident set passes
+// $VERIF_MEM_SOFT_KB stops exploring (reported as a cap, exhaustive:false) instead of dying on
+// its address-space limit. The resident set is sampled at most every 100 ms.
+func overMemory() bool {
+	mu.Lock()
+	defer mu.Unlock()
+	if memSoftKB < 0 {
+		memSoftKB, _ = strconv.ParseInt(os.Getenv("VERIF_MEM_SOFT_KB"), 10, 64)
+	}
+	if memSoftKB == 0 || memOver {
+		return memOver
+	}
+	if time.Since(memChecked) < 100*time.Millisecond {
+		return false
+	}
+	memChecked = time.Now()
+	if rss := rssKB(); rss > memSoftKB {
+		memOver = true
+		R.Notes = append(R.Notes, fmt.Sprintf("memory guard: resident set %d MB passed the soft limit %d MB, exploration stopped early", rss>>10, memSoftKB>>10))
+		R.Caps = append(R.Caps, "memory guard")
+	}
+	return memOver
+}
+
+func rssKB() int64 {
+	data, err := ioutil.ReadFile("/proc/self/statm")
+	if err != nil {
+		return 0
+	}
+	f := strings.Fields(string(data))
+	if len(f) < 2 {
+		return 0
+	}
+	pages, _ := strconv.ParseInt(f[1], 10, 64)
+	return pages * int64(os.Getpagesize()) / 1024
 }
 
 func Hash(b []byte) uint64 {
@@ -284,6 +333,10 @@ func Flush(property string) {
 	}
 	R.NStates = len(states)
 	R.NNontrivial = len(nontriv)
+	fmt.Fprintf(os.Stderr, "RESOURCES goroutines=%d rss_mb=%d wall_s=%.1f\n", runtime.NumGoroutine(), rssKB()>>10, R.WallS)
+	if os.Getenv("VERIF_DEBUG_GOROUTINES") != "" {
+		pprof.Lookup("goroutine").WriteTo(os.Stderr, 1)
+	}
 	out := os.Getenv("VERIF_OUT")
 	if out == "" {
 		data, _ := json.MarshalIndent(R, "", " ")
